@@ -604,7 +604,7 @@ class Assembler:
                         elif t2.kind == 'punct' and t2.text == ';' and depth == 0:
                             break
                         q -= 1
-                    edits.append((toks[q + 1].start, 0, 'vf_iter_map('))
+                    edits.append((toks[q + 1].start, 0, 'vf_iter_map(', -1))  # before any hint anchored at the same offset
                     edits.append((toks[j].start, toks[j + 2].end - toks[j].start, ', '))
                     rules.append('R9')
                     j = c
@@ -637,11 +637,11 @@ class Assembler:
         for t in all_toks:
             if t.kind == 'doc' and lo <= t.start and t.end <= hi:
                 edits.append((t.start, t.end - t.start, ''))
-        order = sorted(range(len(edits)), key=lambda i: (edits[i][0], i))
+        order = sorted(range(len(edits)), key=lambda i: (edits[i][0], edits[i][3] if len(edits[i]) > 3 else 0, i))
         out = []
         pos = lo
         for i in order:
-            off, dl, ins = edits[i]
+            off, dl, ins = edits[i][:3]
             if off < pos:
                 # overlapping delete; skip
                 if dl == 0:
